@@ -105,22 +105,21 @@ def _assume_domain(ctx: Ctx, cfg: dict, names, cells, s: Script, tol, min_iter, 
 
 
 def _model_class(cfg: dict):
-    base = _tracer_base() if cfg.get('tracer') is not None else None
-    return make_scripted(cfg['N'], with_z=cfg['with_z'], base=base)
-
-
-_TRACER_BASE = []
-
-
-def _tracer_base():
-    if not _TRACER_BASE:
+    S = make_scripted(cfg['N'], with_z=cfg['with_z'])
+    if cfg.get('tracer') is None:
+        return S
+    key = (cfg['N'], cfg['with_z'])
+    if key not in _TRACED:
         from fsic.extensions.model import TracerMixin
 
-        class TracedBase(TracerMixin, fsic.BaseModel):
+        class Traced(TracerMixin, S):
             pass
 
-        _TRACER_BASE.append(TracedBase)
-    return _TRACER_BASE[0]
+        _TRACED[key] = Traced
+    return _TRACED[key]
+
+
+_TRACED: dict = {}
 
 
 def _span(cfg: dict):
@@ -164,7 +163,8 @@ def _call_impl(m, cfg: dict, *, min_iter, tol, offset) -> dict:
     out['eval_iters'] = [i for k, i in st['log'] if k == 'eval']
     out['pre_calls'] = [i for k, i in st['log'] if k == 'before']
     out['post_calls'] = [i for k, i in st['log'] if k == 'after']
-    out['log_order'] = [k for k, _ in st['log']]
+    out['log_order'] = [k for k, _ in st['log'] if not k.endswith('_done')]
+    out['events'] = list(st['log'])
     out['status_all'] = [str(x) for x in m.status]
     out['iters_all'] = [int(x) for x in m.iterations]
     return out
